@@ -193,9 +193,10 @@ func decodeKeyCharByUnicodeRune(buf []byte, cursor int64) ([]byte, int64, error)
 	return []byte(string(r)), cursor + defaultOffset - 1, nil
 }
 
+// decodeKeyCharByEscapedChar decodes the escape whose character is at cursor.
+// It returns the index of the last byte it consumed (callers advance past it).
 func decodeKeyCharByEscapedChar(buf []byte, cursor int64) ([]byte, int64, error) {
 	c := buf[cursor]
-	cursor++
 	switch c {
 	case '"':
 		return []byte{'"'}, cursor, nil
@@ -214,9 +215,9 @@ func decodeKeyCharByEscapedChar(buf []byte, cursor int64) ([]byte, int64, error)
 	case 't':
 		return []byte{'\t'}, cursor, nil
 	case 'u':
-		return decodeKeyCharByUnicodeRune(buf, cursor)
+		return decodeKeyCharByUnicodeRune(buf, cursor+1)
 	}
-	return nil, cursor, nil
+	return nil, 0, errors.ErrUnexpectedEndOfJSON("escaped string", cursor)
 }
 
 func decodeKeyByBitmapUint8(d *structDecoder, buf []byte, cursor int64) (int64, *structFieldSet, error) {
